@@ -161,4 +161,178 @@ theorem inBatch_next (env : Env) (fuel : Nat) (sv0 : SeqVars) (o : InOpts) (bp :
   · simp only [h]
     cases els <;> rfl
 
+/-! ### the five `int_param` calls composed: one run of `resolveNames` -/
+
+/-- the list the model resolves: the parameters given by the name of a variable, in the order of the calls -/
+def namesOf (params : Text → Option Param) : List (String × Val × Option Int) → List (Text × Text)
+  | [] => []
+  | c :: cs =>
+    match params c.1.toList with
+    | some (.name n) => (c.1.toList, n) :: namesOf params cs
+    | _ => namesOf params cs
+
+/-- the parameters the model starts from: numerals as they stand, 0 for a parameter that is not given (the parameters
+given by name are left as they are) -/
+def litFill (params : Text → Option Param) : List (String × Val × Option Int) → BatchP → BatchP
+  | [], bp => bp
+  | c :: cs, bp =>
+    match params c.1.toList with
+    | some (.name _) => litFill params cs bp
+    | some (.lit i) => litFill params cs (setParam bp c.1.toList i)
+    | none => litFill params cs (setParam bp c.1.toList 0)
+
+/-- what a call costs in the model's fuel: one unit when the parameter is given by name (the lookup `md[v]`), nothing
+when it is a numeral or not given -/
+def paramCost (params : Text → Option Param) (p : Text) : Nat :=
+  match params p with
+  | some (.name _) => 1
+  | _ => 0
+
+/-- the calls run one after the other as `renderwb` does: each call is the translated `int_param` with the key and the
+default of the call; its value is stored when `opt()` can compute with it (else the TypeError flag is set); an exception
+is swallowed where the source has a handler around the call (the constant of the handler is stored) and propagates
+elsewhere.  Fuel: a call gets what is left after paying `paramCost`, and hands exactly that on to the next call; one unit
+must be left at the end. -/
+def paramsRun (env : Env) (params : Text → Option Param) :
+    List (String × Val × Option Int) → Nat → BatchP → Bool → St → Res (BatchP × Bool) × St
+  | [], fuel, bp, bad, st => if fuel = 0 then (.oom, st) else (.ok (bp, bad), st)
+  | c :: cs, fuel, bp, bad, st =>
+    if fuel < paramCost params c.1.toList then (.oom, st)
+    else
+      match intParamGen env (fuel - paramCost params c.1.toList) params c.1.toList c.2.1 st with
+      | (.ok v, st') =>
+        (match valPInt v with
+         | some i => paramsRun env params cs (fuel - paramCost params c.1.toList) (setParam bp c.1.toList i) bad st'
+         | none => paramsRun env params cs (fuel - paramCost params c.1.toList) bp true st')
+      | (.raise e, st') =>
+        (match c.2.2 with
+         | some i => paramsRun env params cs (fuel - paramCost params c.1.toList) (setParam bp c.1.toList i) bad st'
+         | none => (.raise e, st'))
+      | (.ret v, st') =>
+        (match c.2.2 with
+         | some i => paramsRun env params cs (fuel - paramCost params c.1.toList) (setParam bp c.1.toList i) bad st'
+         | none => (.ret v, st'))
+      | (.oom, st') => (.oom, st')
+
+/-- a key is one of the five, or a store under it does nothing -/
+theorem setParam_cases (p : Text) :
+    p = "start".toList ∨ p = "end".toList ∨ p = "size".toList ∨ p = "overlap".toList ∨ p = "orphan".toList ∨
+      (∀ (bp : BatchP) (i : Int), setParam bp p i = bp) := by
+  by_cases h1 : p = "start".toList
+  · exact Or.inl h1
+  by_cases h2 : p = "end".toList
+  · exact Or.inr (Or.inl h2)
+  by_cases h3 : p = "size".toList
+  · exact Or.inr (Or.inr (Or.inl h3))
+  by_cases h4 : p = "overlap".toList
+  · exact Or.inr (Or.inr (Or.inr (Or.inl h4)))
+  by_cases h5 : p = "orphan".toList
+  · exact Or.inr (Or.inr (Or.inr (Or.inr (Or.inl h5))))
+  · refine Or.inr (Or.inr (Or.inr (Or.inr (Or.inr ?_))))
+    intro bp i
+    simp only [setParam, h1, h2, h3, h4, h5, if_false]
+
+/-- stores to different parameters commute -/
+theorem setParam_comm (bp : BatchP) (p q : Text) (i j : Int) (h : p ≠ q) :
+    setParam (setParam bp q j) p i = setParam (setParam bp p i) q j := by
+  rcases setParam_cases p with rfl | rfl | rfl | rfl | rfl | hp <;>
+    rcases setParam_cases q with rfl | rfl | rfl | rfl | rfl | hq <;>
+    first | exact absurd rfl h | rfl | simp only [hp, hq] | simp only [hp] | simp only [hq]
+
+/-- a store under a key that is not among the remaining calls can be done before or after the numerals are filled in -/
+theorem litFill_setParam (params : Text → Option Param) (cs : List (String × Val × Option Int)) (p : Text) (i : Int)
+    (h : ∀ c ∈ cs, c.1.toList ≠ p) (bp : BatchP) :
+    litFill params cs (setParam bp p i) = setParam (litFill params cs bp) p i := by
+  induction cs generalizing bp with
+  | nil => rfl
+  | cons c cs ih =>
+    have hc : c.1.toList ≠ p := h c (List.mem_cons_self ..)
+    have ih' := ih (fun c' hc' => h c' (List.mem_cons_of_mem _ hc'))
+    unfold litFill
+    cases hq : params c.1.toList with
+    | none => simp only []; rw [setParam_comm _ _ _ _ _ hc, ih']
+    | some q =>
+      cases q with
+      | lit k => simp only []; rw [setParam_comm _ _ _ _ _ hc, ih']
+      | name n => simp only []; exact ih' bp
+
+/-- **the calls composed are one run of `resolveNames`**: over any list of calls with distinct keys whose defaults are
+`0` / `'0'` and whose handler is the one of `start` (`inBatchParamCalls` is such a list: `params_calls_ok`), running the
+translated `int_param` calls one after the other is `resolveNames` on the parameters given by name (in the order of the
+calls), started from the numerals; with the same fuel: every parameter given by name costs one unit, the others none -/
+theorem params_run (env : Env) (params : Text → Option Param) (cs : List (String × Val × Option Int))
+    (hk : cs.Pairwise (fun a b => b.1.toList ≠ a.1.toList))
+    (hd : ∀ c ∈ cs, c.2.1 = .int 0 ∨ c.2.1 = .str "0".toList)
+    (hh : ∀ c ∈ cs, c.2.2 = if c.1.toList == "start".toList then some 1 else none)
+    (hn : ∀ c ∈ cs, ∀ n, params c.1.toList = some (.name n) → n ≠ [])
+    (fuel : Nat) (bp : BatchP) (bad : Bool) (st : St) :
+    paramsRun env params cs fuel bp bad st =
+      resolveNames env fuel (namesOf params cs) (litFill params cs bp) bad st := by
+  induction cs generalizing fuel bp bad st with
+  | nil =>
+    cases fuel with
+    | zero => unfold paramsRun resolveNames; rfl
+    | succ f => unfold paramsRun resolveNames litFill namesOf; simp
+  | cons c cs ih =>
+    have hk' := (List.pairwise_cons.mp hk)
+    have ih' := ih hk'.2 (fun c' hc' => hd c' (List.mem_cons_of_mem _ hc')) (fun c' hc' => hh c' (List.mem_cons_of_mem _ hc'))
+      (fun c' hc' => hn c' (List.mem_cons_of_mem _ hc'))
+    have hdc := hd c (List.mem_cons_self ..)
+    have hhc := hh c (List.mem_cons_self ..)
+    have hnc := hn c (List.mem_cons_self ..)
+    unfold paramsRun namesOf litFill
+    cases hq : params c.1.toList with
+    | none =>
+      have hcost : paramCost params c.1.toList = 0 := by simp only [paramCost, hq]
+      simp only [hcost, Nat.not_lt_zero, if_false, Nat.sub_zero, int_param_absent env fuel params _ _ st hq hdc, valPInt]
+      exact ih' fuel _ bad st
+    | some q =>
+      cases q with
+      | lit k =>
+        have hcost : paramCost params c.1.toList = 0 := by simp only [paramCost, hq]
+        simp only [hcost, Nat.not_lt_zero, if_false, Nat.sub_zero, int_param_lit env fuel params _ _ st k hq, valPInt]
+        exact ih' fuel _ bad st
+      | name n =>
+        have hcost : paramCost params c.1.toList = 1 := by simp only [paramCost, hq]
+        simp only [hcost]
+        cases fuel with
+        | zero => simp only [Nat.lt_one_iff, if_true]; unfold resolveNames; rfl
+        | succ f =>
+          have e1 : ¬ (f + 1 < 1) := by omega
+          simp only [e1, if_false, Nat.add_sub_cancel]
+          rw [resolve_step env f params c.1.toList n c.2.1 _ _ bad st hq (hnc n hq)]
+          have hfill := fun i => litFill_setParam params cs c.1.toList i hk'.1
+          generalize intParamGen env f params c.1.toList c.2.1 st = r
+          rcases r with ⟨r, st'⟩
+          cases r with
+          | ok v =>
+            simp only []
+            cases valPInt v with
+            | some i => simp only []; rw [ih', hfill]
+            | none => simp only []; rw [ih']
+          | raise e =>
+            simp only [hhc]
+            by_cases hs : (c.1.toList == "start".toList) = true
+            · simp only [hs, if_true]; rw [ih', hfill]
+            · simp only [hs]; rfl
+          | ret v =>
+            simp only [hhc]
+            by_cases hs : (c.1.toList == "start".toList) = true
+            · simp only [hs, if_true]; rw [ih', hfill]
+            · simp only [hs]; rfl
+          | oom => rfl
+
+/-- the calls of `renderwb` satisfy what `params_run` asks of a list of calls -/
+theorem params_calls_ok :
+    inBatchParamCalls.Pairwise (fun a b => b.1.toList ≠ a.1.toList) ∧
+    (∀ c ∈ inBatchParamCalls, c.2.1 = .int 0 ∨ c.2.1 = .str "0".toList) ∧
+    (∀ c ∈ inBatchParamCalls, c.2.2 = if c.1.toList == "start".toList then some 1 else none) := by
+  refine ⟨by decide, ?_, ?_⟩
+  · intro c hc
+    simp only [inBatchParamCalls, List.mem_cons, List.not_mem_nil, or_false] at hc
+    rcases hc with rfl | rfl | rfl | rfl | rfl <;> first | exact Or.inl rfl | exact Or.inr rfl
+  · intro c hc
+    simp only [inBatchParamCalls, List.mem_cons, List.not_mem_nil, or_false] at hc
+    rcases hc with rfl | rfl | rfl | rfl | rfl <;> rfl
+
 end DTML.Lemmas.InBatchGen
